@@ -9,4 +9,5 @@ CONSTANTS
 INIT Init
 NEXT Next
 VIEW View
-INVARIANTS NoSharing NoPanic CloneEqual Isolation NoRemnant NoDirt OwnerOK
+INVARIANTS NoSharing OwnerOK
+PROPERTIES NoPanicA CloneEqualA IsolationA NoRemnantA NoDirtA
